@@ -64,13 +64,22 @@ def default(rule, key, diff, **_):
         yield (False, rule["reverse"].format(*key), None)
 
 
+def _drop_removed(pre):
+    for content in (pre or {}).values():
+        for diff in content["items"].values():
+            diff[Op.REMOVED] = []
+            for op in (Op.ADDED, Op.AFFECTED, Op.MOVED):
+                for item in diff[op]:
+                    _drop_removed(item["children"])
+
+
 def ordered(rule, key, diff, **kwargs):
     if diff[Op.MOVED]:
         # Сносим top-level блок
         yield (False, rule["reverse"].format(*key), None)
-    # Дальше Op.MOVED будут пересозданы заново в новом порядке
-    # FIXME вообще-то следовало бы удалять REMOVED из чайлдов
-    # поскольку блок уже очищен и пересоздается заново
+        # Дальше Op.MOVED будут пересозданы заново в новом порядке:
+        # блок уже очищен, удалять в нем больше нечего
+        _drop_removed(diff[Op.MOVED][0]["children"])
     yield from default(rule, key, diff, **kwargs)
 
 
